@@ -36,6 +36,12 @@ def apply_edit(root, nodes, edit):
             n.parent = None
         _ = root.position
         t.value = np.array(t.value, copy=True) - 1.5
+    elif how == 'rename-op':
+        # `name` is a public, settable attribute: a function node re-labelled with another operator of the same
+        # arity denotes the new expression from then on
+        f_ = nodes[edit['f']]
+        pool_ = T.UN if f_.right is None else T.BIN
+        f_.name = pool_[(pool_.index(f_.name) + 1 + edit.get('shift', 0)) % len(pool_)]
     elif edit['d'] is not None:
         d_ = nodes[edit['d']]
         terms = [n for n in nodes if n.type == 'TERMINAL']
@@ -61,7 +67,7 @@ def check_tree(C, drv, root, shape, tag, edit=None):
               shape=list(shape))
     if edit is not None:
         # replay = the tree before the edit, one evaluation, the edit, the evaluation under test
-        rp = dict(edit['pre'], edit=dict(how=edit['how'], t=edit['t'], d=edit['d']))
+        rp = dict(edit['pre'], edit=dict(how=edit['how'], t=edit['t'], d=edit['d'], f=edit.get('f'), shift=edit.get('shift', 0)))
     if before != after or any(s is not None and not np.array_equal(s, n.value, equal_nan=True) for s, n in zip(snaps, nodes)):
         C.issue('evaluation-modified-tree', 'oracle', rp)
     if not isinstance(val, np.ndarray) or tuple(val.shape) != tuple(shape):
@@ -111,8 +117,10 @@ def check_tree(C, drv, root, shape, tag, edit=None):
     if tag != 'edited' and len(nodes) >= 3 and C.rng.random() < 0.5:
         terms = [i for i, n in enumerate(nodes) if n.type == 'TERMINAL']
         deep = [i for i, n in enumerate(nodes) if n.parent is not None and n.parent.parent is not None]
-        how = C.rng.choice(['new-value', 'in-place', 'rehang', 'no-parent-links', 'in-place'])
-        edit = dict(how=how, t=C.rng.choice(terms), d=C.rng.choice(deep) if deep else None, pre=rp)
+        how = C.rng.choice(['new-value', 'in-place', 'rehang', 'no-parent-links', 'in-place', 'rename-op'])
+        funcs = [i for i, n in enumerate(nodes) if n.type == 'FUNCTION']
+        edit = dict(how=how, t=C.rng.choice(terms), d=C.rng.choice(deep) if deep else None, pre=rp,
+                    f=C.rng.choice(funcs), shift=C.rng.randrange(3))
         apply_edit(root, nodes, edit)
         check_tree(C, drv, root, shape, 'edited', edit)
     C.case(key=(before, rp['arrays'][0] if rp['arrays'] else None), nontrivial=len(nodes) > 1, kind=tag,
